@@ -35,6 +35,16 @@ CLAIMED.update({
    note="Trusted: kernel, extraction, drivers, transcription of email_address 0.2 parse_local_part/parse_domain. Modelled, not verified: idna, IpAddr parsing, Unicode tables (oracles with validated hypotheses H_alnum, H_idna_ascii, H_idna_c1, H_ip). serde shapes and Envelope non-emptiness are tested (harness), not proved. No axioms: hypotheses are explicit premises of C16_safe.",
    technique="Coq proof with explicit oracle hypotheses + exhaustive differential correspondence",
    design="8/C16"),
+ "C02": dict(
+   text="Coq theorems about a byte-level executable model of email-encoding's EmailWriter/FoldingEmailWriter/rfc2047::encode and lettre's HeaderValueEncoder: C02_value_safe (for ALL names and ALL value byte strings, any length: the emitted field body is printable ASCII/TAB with CR LF only as CRLF+SP - no supplied text can put a bare CR/LF, NUL or 8-bit byte on a line), C02_fields (any section rendered from fields with constructor-accepted names and safe bodies is read by an RFC 5322 field splitter as exactly those fields in order, followed by exactly the body), C02_names (the name constructor accepts exactly 1..76 ftext characters). Tied to /repo by exhaustive sweeps over a 15-atom alphabet, alignment families for every name length, 64 KiB values, mailbox-list headers, Content-Disposition file names and the name constructor - model vs implementation byte for byte - and by running the extracted RFC 5322 splitter plus a byte/line-length judge on the implementation's output.",
+   note="Trusted: kernel, extraction, drivers, byte-level transcription of email-encoding 0.4 (writer, rfc2047, quoted_string, rfc2231) and of header/mod.rs. Proved for HeaderValue::new (text headers); mailbox-list headers and Content-Disposition are modelled and differentially tested but their safety is not yet a theorem. Line-length clauses (78/998) are judged on the implementation's output, not proved: known findings F7 (blank runs), F26 (address lists never folded), F27 (first word never folded). 'One Date/From, MIME-Version iff MIME' is checked under C01/C11. No axioms.",
+   technique="Coq proof (writer-state/scanner invariant by induction over all encoder steps; splitter completeness) + exhaustive differential correspondence",
+   design="8/C02"),
+ "C12": dict(
+   text="Coq theorems: C12_words_valid (every encoded-word the encoder writes - =?utf-8?b? base64(piece) ?= for a piece of at most 45 bytes - is a valid RFC 2047 encoded-word of at most 75 characters and the RFC reader decodes it to exactly the bytes encoded), C12_piece_bound, C12_b64_roundtrip. The full statement 'a conforming reader recovers exactly the string' is decided by running the extracted RFC 2047 / quoted-string / RFC 2231 readers (Spec/Rfc2047.v, Spec/Rfc2231.v) on the implementation's output for unstructured values, display names and file names (exhaustive small alphabet, alignment families, 64 KiB), with model-vs-implementation correspondence as in C02.",
+   note="Partial as a proof: the end-to-end round trip decode_unstructured(encode v) = v is not yet a Coq theorem (it is checked by the extracted reader on real output); the proved part is the validity and exact decoding of each encoded-word plus base64. Trusted: as C02, plus the RFC readers written from the RFCs. No axioms.",
+   technique="Coq proof (encoded-word validity, base64) + extracted RFC readers applied to the implementation's output",
+   design="8/C12"),
 })
 NOT_YET = {}
 props = [json.loads(l) for l in open(os.path.join(V, "properties.jsonl"))]
